@@ -26,6 +26,7 @@ import (
 	cidlink "github.com/ipld/go-ipld-prime/linking/cid"
 	"github.com/ipld/go-ipld-prime/node/basicnode"
 	"github.com/libp2p/go-libp2p/core/host"
+	"github.com/libp2p/go-libp2p/core/peer"
 	mocknet "github.com/libp2p/go-libp2p/p2p/net/mock"
 	"github.com/multiformats/go-multihash"
 
@@ -509,4 +510,89 @@ func msgOf(v *doubles.StateView) string {
 		return ""
 	}
 	return v.Message
+}
+
+// TestC01Late: two real managers wired back to back (manager level, no graphsync). The transfer is
+// accepted WITHOUT a finalization requirement and runs to its end; the responder's application
+// changes its mind late - it calls UpdateValidationStatus{RequiresFinalization: true} before, WHILE
+// (from another goroutine, while the message is on its way) or after the responder sends its
+// completion - and never releases it. Whatever wins that race, the two ends must tell one story: an
+// initiator that ends Completed has a responder that ends Completed.
+func TestC01Late(t *testing.T) {
+	vf.Run(t, "C01Late", vf.Opts{Bubble: true, DefaultN: 24}, func(c *vf.Case) {
+		r := c.Rng
+		pull := c.Index%2 == 0
+		timing := (c.Index / 2) % 4 // 0 no late update, 1 before the responder's completion, 2 while its Complete message is being sent, 3 right after
+		ownFirst := (c.Index/8)%2 == 0
+		tp := newTwoParty(c, pull, datatransfer.ValidationResult{Accepted: true})
+		A, B, chid := tp.a, tp.b, tp.chid
+		if va, vb := A.view(chid), B.view(chid); va == nil || vb == nil || va.Status != datatransfer.Ongoing || vb.Status != datatransfer.Ongoing {
+			c.Note("setup: initiator %v responder %v", va, vb)
+			tp.stop()
+			return
+		}
+		late := func() {
+			err := B.m.UpdateValidationStatus(bg, chid, datatransfer.ValidationResult{Accepted: true, RequiresFinalization: true})
+			if err != nil {
+				c.Count("late_update_refused", 1)
+			} else {
+				c.Count("late_update_applied", 1)
+			}
+		}
+		var once sync.Once
+		if timing == 2 {
+			B.net.SetOnSend(func(p peer.ID, m datatransfer.Message) error {
+				if rs, ok := m.(datatransfer.Response); ok && rs.IsComplete() {
+					once.Do(func() {
+						done := make(chan struct{})
+						go func() { defer close(done); late() }()
+						<-done
+						c.Count("late_update_during_complete_send", 1)
+					})
+				}
+				return nil
+			})
+		}
+		if ownFirst {
+			A.tp.Events().OnChannelCompleted(chid, nil)
+			settle()
+		}
+		if timing == 1 {
+			late()
+			if r.Intn(2) == 0 {
+				settle()
+			}
+		}
+		B.tp.Events().OnChannelCompleted(chid, nil)
+		if timing == 3 {
+			late()
+		}
+		settle()
+		if !ownFirst {
+			A.tp.Events().OnChannelCompleted(chid, nil)
+			settle()
+		}
+		va, vb := A.view(chid), B.view(chid)
+		if va != nil && va.Status == datatransfer.Completed {
+			c.Count("initiator_completed", 1)
+			if vb == nil || vb.Status != datatransfer.Completed {
+				c.Violation("C01", "responder-not-completed "+fmt.Sprint(vb != nil && vb.Status == datatransfer.Finalizing), "initiator Completed but the responder is %v (pull=%v, late finalization requirement timing %d, own side first=%v)", vb, pull, timing, ownFirst)
+			}
+		} else {
+			c.Count("initiator_waiting", 1)
+		}
+		c.Mark("pull=%v timing=%d ownFirst=%v ist=%v rst=%v", pull, timing, ownFirst, va != nil && va.Status == datatransfer.Completed, vb != nil && vb.Status == datatransfer.Completed)
+		c.NonTrivial()
+		if c.Index < 2 {
+			c.Sample(map[string]any{"engine": "two managers, late finalization requirement", "pull": pull, "timing": timing, "initiator": fmt.Sprint(va), "responder": fmt.Sprint(vb)})
+		}
+		// end whatever is still open so that nothing outlives the bubble
+		for _, side := range []*mgrFix{A, B} {
+			if v := side.view(chid); v != nil && !isTerminal(v.Status) {
+				side.m.CloseDataTransferChannel(bg, chid)
+			}
+		}
+		settle()
+		tp.stop()
+	})
 }
